@@ -10,18 +10,18 @@
    Real time enters only as the Timeout event.  What a frame does (Notify i or Skip) is
    Model/PingFrame.v; its agreement with the RFC reading is in the frame theorems below. *)
 From PV Require Import Base.Prelude Model.Ping Model.PingTrace Model.PingFrame Model.PingScript Model.PingKnown.
-From PV Require Import Spec.PingRFC Proofs.Ping Proofs.PingIff Proofs.PingMore Proofs.PingFrame.
+From PV Require Import Spec.PingRFC Proofs.Ping Proofs.PingIff Proofs.PingMore Proofs.PingFrame Proofs.PingWrap.
 Open Scope N_scope.
 
 (* ---------------------------------------------------------------------------------------- *)
-(* C19_iff.  For every history, every call p and every way of cutting the history at p's Begin
+(* C19_iff (partial: under [young], see C19_distinct_refuted).  For every history, every call p and every way of cutting the history at p's Begin
    and p's (first) End: p returns nil iff a notification carrying p's own identifier happened
    between the two, and ErrTimeout iff none did — provided no call waits across 65536 Begin
    events ([young] in every state; see C19_distinct for why this is needed: the code never checks
    whether an identifier is still in use). The deadline that counts is the moment the call leaves
    its select and takes the table lock (End p), which is at or after the timer (Timeout p): a
    reply that arrives between the two still completes the call. *)
-Theorem C19_iff : forall fx n pre p mid post s,
+Theorem C19_iff_partial : forall fx n pre p mid post s,
   n < 65536 ->
   run fx (init n) (pre ++ Begin p true :: mid ++ End p :: post) = Ok s ->
   always fx young (init n) (pre ++ Begin p true :: mid ++ End p :: post) ->
@@ -30,7 +30,7 @@ Theorem C19_iff : forall fx n pre p mid post s,
     (result_of s p = Some RNil <-> In (Notify i) mid) /\
     (result_of s p = Some RTimeout <-> ~ In (Notify i) mid).
 Proof. exact ping_iff. Qed.
-Print Assumptions C19_iff.
+Print Assumptions C19_iff_partial.
 
 (* The hypothesis is satisfiable and both outcomes occur: call 1 (id 2) sees only notifications
    for other identifiers and times out, call 0 (id 1) is completed by its own. *)
@@ -53,8 +53,9 @@ Print Assumptions C19_young_if_few_calls.
 (* Frames.  [parse_notify f] (Model/PingFrame.v) is what Session.Parse does with the frame f as
    far as the waiter table is concerned: Ok (Some i) = echoNotify(i) is called, Ok None = it is
    not.  [rfc_reply_id f] (Spec/PingRFC.v) is the RFC reading: f is an echo reply carrying
-   identifier i.  They agree on every frame of at most 65535 bytes outside three recorded defect
-   classes (each refuted by a witness that is replayed on the real code by harness variants
+   identifier i.  (Model and classes follow /repo 38ef1da, which made IP4.IsValid reject IHL < 20
+   and TotalLength < IHL.)  They agree on every frame of at most 65535 bytes outside three recorded
+   defect classes (each refuted by a witness that is replayed on the real code by harness variants
    hdr4/hdr6, fam4/fam6, tl4; keys echo_reply_bad_ip_header, echo_reply_wrong_icmp_family,
    echo_reply_beyond_ip4_totallen in known_findings.txt). *)
 Theorem C19_frame_agree_partial : forall f, bytes_ok f -> N.of_nat (List.length f) <= 65535 ->
@@ -126,12 +127,31 @@ Theorem C19_ids_equal_exact : forall fx n tr s q1 q2 pg1 pg2, n < 65536 -> run f
 Proof. exact ids_equal_exact. Qed.
 Print Assumptions C19_ids_equal_exact.
 
-Theorem C19_distinct : forall fx n tr s q1 q2 pg1 pg2,
+Theorem C19_distinct_partial : forall fx n tr s q1 q2 pg1 pg2,
   n < 65536 -> run fx (init n) tr = Ok s -> young s ->
   q1 <> q2 -> pget (pings s) q1 = Some pg1 -> pget (pings s) q2 = Some pg2 ->
   p_phase pg1 = Waiting -> p_phase pg2 = Waiting -> p_id pg1 <> p_id pg2.
 Proof. exact distinct_run. Qed.
-Print Assumptions C19_distinct.
+Print Assumptions C19_distinct_partial.
+
+(* Without [young] the statements fail, and "fewer than 65536 calls outstanding" is NOT enough:
+   the history  Begin 0 | 65535 calls whose send fails | Begin 65536 | Notify 1 | Timeout 0 | End 0
+   is well formed for both code versions; only calls 0 and 65536 ever wait, both are handed
+   identifier 1; the reply for identifier 1 is parsed while call 0 waits, completes call 65536 and
+   call 0 returns ErrTimeout.  (Recorded as key ping_id_wrap_collision; the harness replays this
+   history on the real code: oracle record `viol ping_id_wrap_collision`.) *)
+Theorem C19_distinct_refuted : forall fx,
+  exists s, run fx init_go wrap_history = Ok s /\
+    id_of s 0%nat = Some 1 /\ id_of s K65536 = Some 1 /\
+    In (Notify 1) wrap_mid /\ ~ In (End 0%nat) wrap_mid /\ result_of s 0%nat = Some RTimeout /\
+    (exists pg, pget (pings s) K65536 = Some pg /\ p_recv pg = true /\ p_phase pg = Waiting).
+Proof. exact wrap_collision. Qed.
+Print Assumptions C19_distinct_refuted.
+
+(* the class is decidable: a state is young unless [known_C19_wrap] says otherwise *)
+Theorem C19_young_unless_known : forall s, known_C19_wrap s = false -> young s.
+Proof. exact not_known_wrap_young. Qed.
+Print Assumptions C19_young_unless_known.
 
 (* ---------------------------------------------------------------------------------------- *)
 (* C19_each_own.  A notification changes only the call that owns the table entry of that
@@ -182,12 +202,12 @@ Proof. exact empty_when_idle. Qed.
 Print Assumptions C19_empty_when_idle.
 
 (* The table is exactly the set of calls that wait and have not been woken. *)
-Theorem C19_table_exact : forall fx n tr s, n < 65536 -> run fx (init n) tr = Ok s ->
+Theorem C19_table_exact_partial : forall fx n tr s, n < 65536 -> run fx (init n) tr = Ok s ->
   always fx young (init n) tr -> (fx = true \/ known_C19_sendfail tr = false) ->
   forall i q, tget (tbl s) i = Some q <->
     exists pg, pget (pings s) q = Some pg /\ p_phase pg = Waiting /\ p_recv pg = false /\ p_id pg = i.
 Proof. exact table_exact. Qed.
-Print Assumptions C19_table_exact.
+Print Assumptions C19_table_exact_partial.
 
 Example C19_no_leak_nonvacuous :
   exists s, known_C19_sendfail ex_trace = false /\ run false init_go ex_trace = Ok s /\
